@@ -73,3 +73,22 @@ fn str_starts_with_char(s: &str, c: char) -> (r: bool)
 fn tostr_strslice(s: &&str) -> (r: String)
     ensures r@ == (*s)@
 { unimplemented!() }
+
+// ---- construction of the extended graph (get_extended_symbolic_graph is VERIFIED against these library contracts)
+// ASSUMED (lib-param-bn): BooleanNetwork::variables yields the network variables 0 .. n-1; VariableId is a newtype of usize (derived Hash / Eq);
+// SymbolicContext::with_extra_state_variables(bn, m) creates m[v] extra BDD variables for every network variable v (named "{v}_extra_{i}",
+// interleaved after v); SymbolicAsyncGraph::with_custom_context over such a context and the constant-true unit is the graph of the analysis:
+// it IS the ambient base graph, with k spare variable sets.
+pub open spec fn all_mapped(m: Map<VariableId, u16>, upto: int, k: nat) -> bool {
+    forall|v: VariableId| #![trigger vid(v)] 0 <= vid(v) < upto ==> m.contains_key(v) && m[v] == k
+}
+pub assume_specification[ BooleanNetwork::variables ](n: &BooleanNetwork) -> (r: VariableIdIterator)
+    ensures it_next(&r) == 0;
+pub assume_specification[ SymbolicContext::with_extra_state_variables ](n: &BooleanNetwork, m: &HashMap<VariableId, u16>) -> (r: Result<SymbolicContext, String>)
+    ensures r matches Ok(c) ==> (forall|k: nat| all_mapped(m@, dim_n() as int, k) ==> #[trigger] ctx_uniform_extras(&c, k));
+pub broadcast axiom fn axiom_varid_key_model()
+    ensures #[trigger] obeys_key_model::<VariableId>();
+pub axiom fn axiom_vid_injective(a: VariableId, b: VariableId)
+    ensures vid(a) == vid(b) ==> a == b;
+pub broadcast axiom fn axiom_fresh_ready(g: &SymbolicAsyncGraph, k: nat)
+    ensures #[trigger] fresh_ready(g, k) ==> graph_ready(g) && dim_k() == k;
